@@ -12,6 +12,7 @@ request log gives the RPC count.
 """
 from __future__ import annotations
 
+import random
 import typing as t
 
 from checks import common, drive, offline, plan as P
@@ -89,7 +90,25 @@ def gen_plan(rng, i: int, tier: str) -> dict:
         else:
             ops.append({"op": "protect", "fl": fl, "net": net, "group": grp, "sid": focus_sid if rng.random() < 0.8 else rng.choice(SIDS),
                         "rk": rng.choice((None, focus_rk, focus_rk)), "data": 12})
+    if i % 4 == 1:
+        threadify(plan)
     return plan
+
+
+def threadify(plan: dict) -> None:
+    """The plan's concurrent groups become caller threads using the sync API (simworld.threads decides every pre-emption)."""
+    r = random.Random(plan["seed"])
+    for o in plan["ops"]:
+        if o.get("fl") == "async":
+            o["fl"] = "thread"
+            o.pop("cancel_after_us", None)
+    k = r.random()
+    if k < 0.5:
+        plan["threads"] = {"mode": "prob", "p": r.choice((0.002, 0.02, 0.2))}
+    else:
+        plan["threads"] = {"mode": "points", "n": r.choice((1, 2, 3, 6)), "horizon": r.choice((400, 4000, 20000))}
+    plan["threads"]["gran"] = "line"  # (opcode events are not repeatable under CPython 3.12.1: the first execution of a code object misses them)
+    plan["family"] = "threads"
 
 
 def judge(plan, tr: P.Trace):
@@ -101,9 +120,14 @@ def judge(plan, tr: P.Trace):
     covered: t.Dict[tuple, t.List[t.Tuple[tuple, int]]] = {}  # (rk idx, sd, l0) -> [(position, return_seq of the obtaining op)]
     rk_index = {rk.root_key_id: i for i, rk in enumerate(tr.root_keys)}
     member_sids = set(plan["caller_sids"])
+    pending: t.Dict[t.Any, t.Dict[tuple, t.List[tuple]]] = {}  # thread group -> triple -> positions obtained inside it
     for ot in tr.ops:
         op = ot.op
         kind = op["op"]
+        for gid in [g_ for g_ in pending if g_ != op.get("group") or op.get("fl") != "thread"]:
+            end = max(o_.return_seq for o_ in tr.ops if o_.op.get("fl") == "thread" and o_.op.get("group") == gid)
+            for triple_, poss in pending.pop(gid).items():
+                covered.setdefault(triple_, []).append((min(poss), end))
         if kind == "identity":
             member_sids = set(op["sids"])
             probes["identity_change"] = 1
@@ -197,7 +221,14 @@ def judge(plan, tr: P.Trace):
             for g in mine:
                 if g.get("kind") == "seed" and g.get("hresult") == 0:
                     rid = rk_index[g["envelope_fields"]["root_key_id"]]
-                    covered.setdefault((rid, g["sd"], g["position"][0]), []).append((tuple(g["position"]), ot.return_seq))
+                    if op["fl"] == "thread" and fl.endswith("-concurrent"):
+                        # KeyCache._store_key is read-compare-write and the library does not claim thread safety: of two threads storing
+                        # for one triple either envelope may stay.  What the group leaves behind is credited when the whole group has
+                        # returned, at the lowest position any of its threads obtained (earlier material is never replaced by a lower one).
+                        pending.setdefault(op["group"], {}).setdefault((rid, g["sd"], g["position"][0]), []).append(tuple(g["position"]))
+                        probes["thread_obtained"] = probes.get("thread_obtained", 0) + 1
+                    else:
+                        covered.setdefault((rid, g["sd"], g["position"][0]), []).append((tuple(g["position"]), ot.return_seq))
     return None, probes
 
 
@@ -216,7 +247,8 @@ class C10(common.Check):
                   "scheduler / transport / clock": "simulated (SimLoop external-completion order from the PRNG, ready queue FIFO)",
                   "security context": "stub (StubCtx)", "reference model": "analytic fresh-cache model + ref.cms/ref.gkdi"}
     assumptions = ["'fresh cache' = a new KeyCache holding the root keys loaded so far", "two overlapping operations may both fetch: RPC economy is judged only for operations invoked after the covering one returned (global event sequence numbers)"]
-    required_fired = ("cache_hit_no_rpc", "cache_made_it_possible", "legit_failure", "concurrent_groups", "covered_op", "identity_change", "many_l0", "slowconn", "cancelled_by_caller")
+    required_fired = ("cache_hit_no_rpc", "cache_made_it_possible", "legit_failure", "concurrent_groups", "covered_op", "identity_change", "many_l0", "slowconn", "cancelled_by_caller",
+                      "thread_groups", "thread_overlap", "thread_obtained")
 
     def cases(self, tier, seed):
         rng = prng.stream(seed, "C10")
@@ -234,11 +266,13 @@ class C10(common.Check):
         conc = sum(1 for v in groups.values() if v > 1)
         probes["concurrent_groups"] = conc
         probes["many_l0"] = int(case.get("family") == "many-l0")
+        probes["thread_groups"] = sum(1 for g_, v in groups.items() if v > 1 and any(o.get("group") == g_ and o.get("fl") == "thread" for o in case["ops"]))
+        probes["thread_overlap"] = st.get("toverlap", 0)
         sched = common.key_hash(tr.schedule)
         n_api = sum(1 for o in case["ops"] if o["op"] in ("protect", "unprotect"))
         return {"viol": viol, "digest": tr.world.digest(), "key": common.key_hash([case, sched]) if n_api >= 2 else None, "sched_key": sched if tr.schedule else None,
                 "fired": {"sched_choice_points": st.get("choice_points", 0), "seg": st.get("seg", 0), "clk": st.get("clk", 0), "noconn": st.get("noconn", 0),
-                          "slowconn": st.get("slowconn", 0), "cancel": st.get("cancel", 0)},
+                          "slowconn": st.get("slowconn", 0), "cancel": st.get("cancel", 0), "thread_preemptions": st.get("tswitch", 0)},
                 "probes": probes, "vtime_ns": st.get("vtime_ns", 0)}
 
     def shrink(self, case):
@@ -247,6 +281,8 @@ class C10(common.Check):
             if len(ops) > 1:
                 yield dict(case, ops=ops[:i] + ops[i + 1 :])
         for i, o in enumerate(ops):
+            if o.get("fl") == "thread":
+                yield dict(case, ops=ops[:i] + [dict(o, fl="sync", group=None)] + ops[i + 1 :])
             if o.get("fl") == "async":
                 yield dict(case, ops=ops[:i] + [dict(o, fl="sync", group=None)] + ops[i + 1 :])
             if o.get("op") == "unprotect" and o["blob"].get("mode") == "pub":
@@ -255,6 +291,7 @@ class C10(common.Check):
             yield dict(case, delivery=None)
         if case["dc"].get("omit_l2_at_31"):
             yield dict(case, dc={"omit_l2_at_31": False})
+        yield from P.thread_shrinks(case)
 
     def sample_repr(self, case, res):
         return {"clock_interval": gkdi.interval_of_filetime(case["clock_ft"]), "root_keys": case["root_keys"], "latency_us": case["latency_us"],
